@@ -38,9 +38,13 @@ def run(pid, repo, work):
             ms.append(dict(m, props=[pid]))
     rd = os.path.join(VERIF, "refactors")
     if os.path.isdir(rd):
+        fc = {}
+        if os.path.exists(os.path.join(rd, "EXPECTED_FAIL_CLOSED.json")):
+            fc = json.load(open(os.path.join(rd, "EXPECTED_FAIL_CLOSED.json")))
         for n in sorted(os.listdir(rd)):
             if n.endswith(".diff"):
-                ms.append({"name": "refactor:" + n[:-5], "patch": os.path.join(rd, n), "harmless": True})
+                # (redesigns that remove what a rule is anchored on are expected to fail closed - with anchor-missing / coverage-lost only)
+                ms.append({"name": "refactor:" + n[:-5], "patch": os.path.join(rd, n), "harmless": True, "fail_closed": n[:-5] in fc})
     if not ms:
         return []
     out = os.path.join(VERIF, ".work", "thorough-%s.json" % pid)
@@ -51,14 +55,15 @@ def run(pid, repo, work):
             # only this property's check is run on the scratch copy
             m["expect"] = [pid]
     json.dump(ms, open(tmp, "w"))
-    r = subprocess.run([sys.executable, os.path.join(VERIF, "tools", "mutants.py"), "--file", tmp, "--json", out, "--jobs", "6"],
+    r = subprocess.run([sys.executable, os.path.join(VERIF, "tools", "mutants.py"), "--file", tmp, "--json", out, "--jobs", str(max(4, min(14, (os.cpu_count() or 8) - 2)))],
                        capture_output=True, text=True)
     res = json.load(open(out)) if os.path.exists(out) else []
     caught = [x for x in res if x["status"] == "caught"]
     missed = [x for x in res if x["status"] == "MISSED"]
     silent = [x for x in res if x["status"] == "silent"]
     alarms = [x for x in res if x["status"] == "FALSE-ALARM"]
-    skipped = [x for x in res if x["status"] not in ("caught", "MISSED", "silent", "FALSE-ALARM")]
+    failclosed = [x for x in res if x["status"] == "fail-closed"]
+    skipped = [x for x in res if x["status"] not in ("caught", "MISSED", "silent", "FALSE-ALARM", "fail-closed")]
     ev = os.path.join(VERIF, "evidence", pid + ".json")
     if repo == "/repo" and os.path.exists(ev):
         e = json.load(open(ev))
@@ -66,11 +71,14 @@ def run(pid, repo, work):
         e["coverage"]["mutant_sweep"] = {"mutants": len(res), "caught": len(caught), "missed": [x["name"] for x in missed],
                                          "skipped": [x["name"] for x in skipped],
                                          "harmless_edits_silent": len(silent), "harmless_edits_alarmed": [x["name"] for x in alarms],
+                                         "redesigns_failed_closed_as_expected": [x["name"] for x in failclosed],
                                          "rule": "each stored mutant (a small edit that compiles and passes the 142 tests) is applied "
                                                  "to a scratch copy of the current tree; the check must report a violation on it"}
         json.dump(e, open(ev, "w"), indent=1)
     print("%s thorough: %d/%d breaking edits caught, %d/%d harmless edits silent, %d skipped"
           % (pid, len(caught), len(caught) + len(missed), len(silent), len(silent) + len(alarms), len(skipped)))
+    for x in failclosed:
+        print("NOTE: fails closed on a redesign that removes the rule's anchors (listed in refactors/EXPECTED_FAIL_CLOSED.json): %s" % x["name"])
     for x in alarms:
         print("NOTE: alarm on a behaviour-preserving edit (checker precision): %s" % x["name"])
     for x in missed:
